@@ -42,6 +42,17 @@ fn position_to_index(source: &[char], position: Position) -> usize {
         .take(position.line as usize + 1)
         .collect();
 
+    // The position lies on the last line (the source has exactly `line` newlines): that line
+    // has no entry in `newline_indices`, it ends where the source ends.  A column past the end
+    // of an empty last line keeps its historical answer (tests `end_of_line`, `issue_250`).
+    let line = position.line as usize;
+    if line >= 1
+        && newline_indices.len() == line
+        && (newline_indices[line - 1] < source.len() || position.character == 0)
+    {
+        newline_indices.push(source.len());
+    }
+
     let line_end_idx = newline_indices.pop().unwrap_or(source.len());
     let line_start_idx = newline_indices.pop().unwrap_or(0);
 
